@@ -290,7 +290,9 @@ pub fn can_join(prev: &Lexeme, next: &Lexeme) -> bool {
         Cls::Line | Cls::Version => false,
         Cls::Word => matches!(next.first, Cls::Punct(_) | Cls::Str),
         Cls::Number | Cls::NumDot => matches!(next.first, Cls::Punct(c) if c != '.') || matches!(next.first, Cls::Str),
-        Cls::Str => matches!(next.first, Cls::Punct(_) | Cls::Str),
+        // a literal suffix must start like an identifier: a digit or `.5` after the closing quote
+        // starts a new token
+        Cls::Str => matches!(next.first, Cls::Punct(_) | Cls::Str | Cls::Number | Cls::NumDot),
         Cls::Punct(c) => match c {
             '/' => !matches!(next.first, Cls::Punct('/') | Cls::Punct('*')),
             '.' => !matches!(next.first, Cls::Number | Cls::NumDot),
